@@ -87,6 +87,8 @@ type Transport struct {
 	// MaxExchanges bounds the number of requests per run (default 3000).
 	MaxExchanges int
 	Name         string
+	// LastWire is the wire-level form of the most recent response.
+	LastWire *Response
 	seq      int
 	// Cancel, when set, is used by the Cancel* faults to cancel the caller's context.
 	Cancel context.CancelFunc
@@ -105,6 +107,10 @@ type Response struct {
 	// rewrote the header); only used when SetRawCL is true.
 	RawContentLength int64
 	SetRawCL         bool
+	// Excess: the handler tried to write more than the Content-Length it declared.
+	Excess bool
+	// WroteHeader: the handler called WriteHeader/Write itself (false: implicit 200).
+	WroteHeader bool
 }
 
 type noValues struct{ context.Context }
@@ -121,6 +127,7 @@ type simRW struct {
 	declared int64
 	head     bool
 	excess   bool
+	explicit bool
 }
 
 func (w *simRW) Header() http.Header { return w.hdr }
@@ -419,6 +426,7 @@ func (t *Transport) RoundTrip(req *http.Request) (*http.Response, error) {
 		}
 		rw := &simRW{hdr: http.Header{}, head: req.Method == "HEAD"}
 		h.ServeHTTP(rw, sreq)
+		rw.explicit = rw.wrote
 		if !rw.wrote {
 			rw.WriteHeader(200)
 		}
@@ -457,7 +465,8 @@ func (t *Transport) RoundTrip(req *http.Request) (*http.Response, error) {
 		return fail(err)
 	}
 
-	wr := &Response{Status: rw.status, Header: rw.snap, Body: rw.body.Bytes(), DeclaredLen: rw.declared}
+	wr := &Response{Status: rw.status, Header: rw.snap, Body: rw.body.Bytes(), DeclaredLen: rw.declared, Excess: rw.excess, WroteHeader: rw.explicit}
+	t.LastWire = wr
 	if wr.Header == nil {
 		wr.Header = http.Header{}
 	}
